@@ -82,12 +82,15 @@ Proof.
   { intros k. destruct k; cbn; auto. intros [E|[]]. subst s. vm_compute in Hs. discriminate. }
   assert (R : forall ks, In s (flat_map (Skel.Emit.leaf_texts Mso) ks) -> In s (flat_map (Skel.Emit.leaf_texts Std) ks)).
   { intros ks. rewrite !in_flat_map. intros [k [Hk H1]]. exists k. split; [exact Hk|now apply L]. }
+  assert (I : forall i, In s (Skel.Emit.item_texts Mso i) -> In s (Skel.Emit.item_texts Std i)).
+  { intros i. destruct i as [cl|ts]; cbn [Skel.Emit.item_texts]; [apply R|auto]. }
   assert (C : forall cs, In s (Skel.Emit.cols_texts Mso cs) -> In s (Skel.Emit.cols_texts Std cs)).
-  { intros cs. unfold Skel.Emit.cols_texts, Skel.Emit.col_texts. rewrite !in_flat_map. intros [c0 [Hc H0]]. exists c0. split; [exact Hc|now apply R]. }
+  { intros cs. unfold Skel.Emit.cols_texts. rewrite !in_flat_map. intros [c0 [Hc H0]]. exists c0. split; [exact Hc|now apply I]. }
   assert (S : forall sc, In s (Skel.Emit.sec_texts Mso sc) -> In s (Skel.Emit.sec_texts Std sc)).
   { intros sc. destruct sc as [cs|gs]; cbn [Skel.Emit.sec_texts]; [apply C|]. rewrite !in_flat_map. intros [g [Hg H0]]. exists g. split; [exact Hg|now apply C]. }
-  destruct bl as [sc|sc|ss|ks]; cbn [Skel.Emit.block_texts] in *; try (now apply S); try (now apply R).
-  rewrite in_flat_map in *. destruct H as [sc [Hsc H0]]. exists sc. split; [exact Hsc|now apply S].
+  destruct bl as [sc|sc|ss|ks|ts]; cbn [Skel.Emit.block_texts] in *; try (now apply S); try (now apply R); try assumption.
+  rewrite in_flat_map in *. destruct H as [wi [Hwi H0]]. exists wi. split; [exact Hwi|].
+  destruct wi as [sc|ts]; cbn [Skel.Emit.witem_texts] in *; [now apply S|assumption].
 Qed.
 
 Print Assumptions C04_texts_compose.
